@@ -479,6 +479,42 @@ def listRefines : Refines listImpl where
     | panic x => exact absurd hp (popByL_not_panic _ _ _)
   clear := fun h => ⟨_, rfl, rfl⟩
 
+theorem fast_pop (l : List Entry) (pred : Entry → Bool) :
+    PopRel (fun (q : List Entry × Nat) l' => q.1 = l' ∧ q.2 = l'.length)
+      (match popByL l pred with
+        | .ok (v, l') => .ok (v, (l', l.length - 1))
+        | .err e => .err e
+        | .panic x => .panic x)
+      (popByL l pred) := by
+  cases hp : popByL l pred with
+  | ok r =>
+    obtain ⟨v, l'⟩ := r
+    obtain ⟨e, _, _, _, _, _, hperm⟩ := popByL_ok hp
+    have := hperm.length_eq
+    simp only [List.length_cons] at this
+    exact ⟨rfl, rfl, by show l.length - 1 = l'.length; omega⟩
+  | err x => exact rfl
+  | panic x => exact absurd hp (popByL_not_panic _ _ _)
+
+/-- the list queue with a cached count refines the list queue. -/
+def fastRefines : Refines fastImpl where
+  Rep := fun q l => q.1 = l ∧ q.2 = l.length
+  empty := ⟨rfl, rfl⟩
+  length := fun h => by obtain ⟨h1, h2⟩ := h; subst h1; show _ % 65536 = _; rw [h2]
+  push := fun p s h => by
+    obtain ⟨h1, h2⟩ := h; subst h1
+    exact ⟨_, rfl, rfl, by show _ + 1 = _; rw [h2, insertL_length]⟩
+  find := fun s h => by obtain ⟨h1, _⟩ := h; subst h1; rfl
+  popAt := fun s h => by
+    obtain ⟨h1, h2⟩ := h; subst h1
+    show PopRel _ (match popByL _ _ with | .ok (v, l') => .ok (v, (l', _ - 1)) | .err e => .err e | .panic x => .panic x) _
+    rw [h2]; exact fast_pop _ _
+  popAtTs := fun t h => by
+    obtain ⟨h1, h2⟩ := h; subst h1
+    show PopRel _ (match popByL _ _ with | .ok (v, l') => .ok (v, (l', _ - 1)) | .err e => .err e | .panic x => .panic x) _
+    rw [h2]; exact fast_pop _ _
+  clear := fun _ => ⟨_, rfl, rfl, rfl⟩
+
 /-- the first push into an empty, never-started buffer establishes the invariant and sets the playout head. -/
 theorem inv_first_push (js : LJB) (hq : js.q = []) (hr : js.ready = false) (hs : js.state = .buffering)
     (hm : js.minStart < 65536) (p : Pkt) :
